@@ -244,6 +244,12 @@ void vmain(void)
   A(0); A(3); want[0] = "a@DH.DD"; want[1] = "d@DH.DD"; nwant = 2;
 #elif FORM == 20         /* j: ;                    empty group: no mailbox */
   A(9); COLON; SEMI; nwant = 0;
+#elif FORM == 21         /* j (g) <a@b.c>           comment between the phrase and the angle address */
+  A(9); CMT(6); LT; ABC; GT; want[0] = "a@b.c"; nwant = 1;
+#elif FORM == 22         /* j (g) i <a@b.c>         comment inside the phrase */
+  A(9); CMT(6); A(8); LT; ABC; GT; want[0] = "a@b.c"; nwant = 1;
+#elif FORM == 23         /* "Q" (g) <a@b.c>         quoted phrase, comment, angle address */
+  add(TOKEN822_QUOTE, cq, 1); CMT(6); LT; ABC; GT; want[0] = "a@b.c"; nwant = 1;
 #else
 #error "unknown FORM"
 #endif
